@@ -112,6 +112,25 @@ Section Generic.
     apply IH. exact H1.
   Qed.
 
+  (* climb depends on the precedence function only through the order it induces *)
+  Lemma climb_iso prec1 prec2
+        (Hiso : forall o o', (prec1 o <? prec1 o') = (prec2 o <? prec2 o')) f :
+    forall lhs m1 m2 (rest : rest_t),
+      Forall (fun oa => (m1 <=? prec1 (fst oa)) = (m2 <=? prec2 (fst oa))) rest ->
+      climb mk prec1 f lhs m1 rest = climb mk prec2 f lhs m2 rest.
+  Proof.
+    induction f as [|f IH]; intros lhs m1 m2 rest HF; [reflexivity|].
+    cbn [climb]. destruct rest as [|[o a] r]; [reflexivity|].
+    inversion HF as [|x l Hx Hr]; subst. cbn [fst] in Hx. rewrite <- Hx.
+    destruct (m1 <=? prec1 o); [|reflexivity].
+    assert (Hr1 : Forall (fun oa => (S (prec1 o) <=? prec1 (fst oa)) = (S (prec2 o) <=? prec2 (fst oa))) r).
+    { apply Forall_forall. intros [o' a'] _. cbn [fst]. exact (Hiso o o'). }
+    rewrite <- (IH a (S (prec1 o)) (S (prec2 o)) r Hr1).
+    pose proof (climb_Forall prec1 _ f a (S (prec1 o)) r Hr) as H1.
+    destruct (climb mk prec1 f a (S (prec1 o)) r) as [rhs r1]. cbn [snd] in H1.
+    apply IH. exact H1.
+  Qed.
+
   (* ---- one fold pass, structurally: fold every operator satisfying p, left to right ---- *)
 
   Fixpoint spass (p : sym -> bool) (lhs : A) (rest : rest_t) : A * rest_t :=
